@@ -214,3 +214,15 @@ func GcdOld(a, b int) int {
 	}
 	return a
 }
+
+type Bind struct {
+	Port int
+	Name string
+}
+
+// SortBinds orders binds by port.
+func SortBinds(bs []*Bind) {
+	sort.Slice(bs, func(i, j int) bool {
+		return bs[i].Port < bs[j].Port
+	})
+}
